@@ -241,15 +241,18 @@ def execute(case, chooser, visited=None, rolling=None):
 
         async def observed_release(txos):
             txos = list(txos)
+            ids = {t.id for t in txos}
             b = by_task.get(asyncio.current_task())
-            if b is None:
-                return await orig_release(txos)
-            b.claims -= {t.id for t in txos}
-            b.releasing += 1
+            # a release may run in a helper task (asyncio.shield): then it belongs to whoever holds these outputs
+            owners = [b] if b is not None else [x for x in builds if x.claims & ids]
+            for o in owners:
+                o.claims -= ids
+                o.releasing += 1
             try:
                 return await orig_release(txos)
             finally:
-                b.releasing -= 1
+                for o in owners:
+                    o.releasing -= 1
         ledger.release_outputs = observed_release
 
         orig_broadcast = h.network.broadcast
